@@ -241,7 +241,6 @@ EXTRA = [
      "        if args.lst:\n            open(\"early.lst\", \"w\").write(comp.generate_listing())\n        with reports.handle_reports(report_handler):\n            was_emitted, emitted_file = comp.emit_files(base, code)\n"),
     ("C17", "tab-counts-eight", "pdpy11/context.py", "self.code[idx_line_start:self.pos].count(\"\\t\") * 3", "self.code[idx_line_start:self.pos].count(\"\\t\") * 7"),
     ("C17", "line-number-zero-based", "pdpy11/context.py", "return f\"{self.filename}:{line_no + 1}:{col_no + 1}\"", "return f\"{self.filename}:{line_no}:{col_no + 1}\""),
-    ("C17", "token-end-not-saved", "pdpy11/types.py", "        self.ctx_end = None if ctx_end is None else ctx_end.save()", "        self.ctx_end = None if ctx_end is None else ctx_end"),
     ("C17", "undefined-symbol-points-at-statement", "pdpy11/types.py",
      "            \"undefined-symbol\",\n            (self.ctx_start, self.ctx_end,", "            \"undefined-symbol\",\n            (state[\"insn\"].ctx_start, self.ctx_end,"),
     ("C17", "revert-chunk-position-fix", "pdpy11/parser.py", "def angle_bracketed_char(ctx):\n    ctx.skip_whitespace()\n", "def angle_bracketed_char(ctx):\n"),
